@@ -16,6 +16,16 @@ pub const TAU_JAC_ORTH: f64 = 256.0;
 /// may be attributed to the dependency (KF-1), in units of ε
 pub const KF1_MIN_E: f64 = 16.0;
 
+/// smallest positive normal number of the scalar type whose machine epsilon is `eps`: element-wise
+/// tolerances need this absolute floor, because results in the sub-normal range have no relative accuracy
+pub fn tiny_for(eps: f64) -> f64 {
+    if eps > 1e-10 {
+        f32::MIN_POSITIVE as f64
+    } else {
+        f64::MIN_POSITIVE
+    }
+}
+
 /// The oracle's view of one problem state
 pub struct View {
     pub n: usize,
@@ -105,7 +115,7 @@ pub fn residual_identity_ratio(v: &View, yw: &Mat, c: &Mat, resid: &[f64], eps: 
     for s in 0..c.c {
         for i in 0..v.n {
             let want = yw.at(i, s) - fit.at(i, s);
-            let tol = TAU_RESID * eps * (v.m as f64) * (yw.at(i, s).abs() + absfit.at(i, s)) + f64::MIN_POSITIVE;
+            let tol = TAU_RESID * eps * (v.m as f64) * (yw.at(i, s).abs() + absfit.at(i, s)) + 64.0 * tiny_for(eps);
             let ratio = (resid[s * v.n + i] - want).abs() / tol;
             if !(ratio <= worst) {
                 worst = ratio;
